@@ -19,12 +19,12 @@ theorem new_ok (A : View α)   : new A  = .ok (s0 A ) := by
 
 @[simp] def abs (A : View α) (s : State α A.σ) : A.σ × LnReturnState α := (s.view, { lastVal := s.last_val, currentVal := s.current_val })
 
-theorem upd_eq (A : View α)  (s : State α A.σ) (x : α)  :
+theorem upd_eq (A : View α)  (s : State α A.σ) (x : α)   :
     (update A s x).map (abs A) = (wrap A lnReturnCore).upd (abs A s) x := by
   simp only [update, wrap, mapV, binop, lnReturnCore, abs]; gen_tie
-theorem upd_cfg (A : View α) (s s' : State α A.σ) (x : α) : update A s x = .ok s' → True := by
+theorem upd_cfg (A : View α) (s s' : State α A.σ) (x : α)  : update A s x = .ok s' → True := by
   simp only [update, lnReturnCore]; gen_tie
-theorem last_eq (A : View α)  (s : State α A.σ)  : last A s = (wrap A lnReturnCore).last (abs A s) := by
+theorem last_eq (A : View α)  (s : State α A.σ)   : last A s = (wrap A lnReturnCore).last (abs A s) := by
   simp only [last, wrap, mapV, binop, lnReturnCore, abs]; gen_tie
 
 def sim (A : View α)   : Sim (mkView (s0 A ) (update A) (last A)) (wrap A lnReturnCore) where
@@ -34,15 +34,15 @@ def sim (A : View α)   : Sim (mkView (s0 A ) (update A) (last A)) (wrap A lnRet
   init_abs := by rfl
   upd := fun (s : State α A.σ) x hs => by
     skip
-    have := upd_eq A s x  
+    have := upd_eq A s x   
     exact this
   upd_cfg := fun (s : State α A.σ) x s' hs h => by
     skip
-    have := upd_cfg A s s' x h
+    have := upd_cfg A s s' x  h
     simp_all
   last := fun (s : State α A.σ) hs => by
     skip
-    have := last_eq A s  
+    have := last_eq A s   
     exact this
 
 /-- the Rust text of `LnReturn`, as translated, and the model agree on every input: same answers, same panics -/
